@@ -49,7 +49,11 @@ def nucleationBarrier(volumeDrivingForce, precipitate : PrecipitateParameters, a
     else:
         RcritProposal = precipitate.nucleation.Rcrit(volumeDrivingForce[indices])
         Rcrit[indices] = np.amax([RcritProposal, Rmin[indices]], axis=0)
-        Gcrit[indices] = precipitate.nucleation.Gcrit(volumeDrivingForce[indices], Rcrit[indices])
+        # Same convention as the bulk branch when R* is raised to Rmin: G* = (1/3) * interfacial term * Rcrit^2.
+        # This equals nucleation.Gcrit(dG, R*) at the unclamped R*; evaluating the formation energy at a radius
+        # above 1.5 R* instead gives a zero or negative barrier (rate switched off or above Z*beta)
+        nuc = precipitate.nucleation
+        Gcrit[indices] = (nuc.areaFactor * nuc.gamma - nuc.gbRemoval * nuc.gbEnergy) / 3 * Rcrit[indices]**2
 
     return np.squeeze(Rcrit), np.squeeze(Gcrit)
 
